@@ -9,7 +9,10 @@
 // registered proto codec, CloneFunc(correct fn), CopyFunc(correct fn)} x, for
 // the two configurations that run a user-supplied copy (CopyFunc, CodecCloner),
 // what that correct user function does with the storage of the destination it is
-// handed {allocates afresh, keeps it: userfn.go} x message pool (pool.go, the pool of the C18 check) x representation of the
+// handed {allocates afresh, keeps it: userfn.go} x what the handler does with
+// its objects {answers with a new message, answers with the very object it
+// received the request into, answers two calls with one object that it changes
+// in between: handlers.go} x message pool (pool.go, the pool of the C18 check) x representation of the
 // sender's object and of the receiver's destination {generated,
 // *dynamic.Message}^2 x previous content of the receive destination.
 // Every case is one RPC on a real inprocgrpc.Channel; see harness.go for the
@@ -81,6 +84,24 @@ func enumerate(thorough bool) []kase {
 					}
 				}
 			}
+			// what the handler does with its objects (handlers.go); the response direction carries the shape
+			for _, hn := range handlerNames {
+				for _, kind := range handlerKinds(hn) {
+					for _, s := range pool {
+						fills := fillers(s.Type, s, thorough)
+						names := []string{}
+						if thorough || len(fills) == 0 {
+							names = append(names, "")
+						}
+						for _, f := range fills {
+							names = append(names, f.Name)
+						}
+						for _, f := range names {
+							out = append(out, kase{Engine: "E2", Cloner: cl, Kind: kind, Dir: "resp", Shape: s.Name, SendRep: rp.send, RecvRep: rp.recv, Fill: f, Handler: hn})
+						}
+					}
+				}
+			}
 		}
 	}
 	return out
@@ -129,7 +150,7 @@ func group(hits []hit) []reported {
 		if i := strings.Index(fam, ":"); i >= 0 {
 			fam, det = fam[:i], fam[i+1:]
 		}
-		return path(h.k.Kind) + "|" + h.k.Dir + "|" + fam, det
+		return pathOf(h.k) + "|" + h.k.Dir + "|" + fam, det
 	}
 	for _, h := range hits {
 		fk, det := family(h)
@@ -207,7 +228,7 @@ func main() {
 		for _, x := range clonerNames {
 			okCloner = okCloner || x == k.Cloner
 		}
-		if k.Engine != "E2" || specByName[k.Shape] == nil || !okKind || !okCloner || (k.Dir != "req" && k.Dir != "resp") || (k.Kind == "unary-cancelled" && k.Dir != "req") {
+		if k.Engine != "E2" || specByName[k.Shape] == nil || !okKind || !okCloner || (k.Dir != "req" && k.Dir != "resp") || (k.Kind == "unary-cancelled" && k.Dir != "req") || !validHandler(k) {
 			inconclusive("replay file does not describe a case of the C06 content part")
 		}
 		o := guarded(k)
@@ -216,7 +237,7 @@ func main() {
 		}
 		fmt.Printf("replay: %s\n  observed: %s %s\n", k.key(), o.Observed, o.Internal)
 		for _, f := range o.Findings {
-			fmt.Printf("  C06|cloner=%s|%s|%s|%s: %s\n", k.Cloner, path(k.Kind), k.Dir, f.Clause, f.What)
+			fmt.Printf("  C06|cloner=%s|%s|%s|%s: %s\n", k.Cloner, pathOf(k), k.Dir, f.Clause, f.What)
 		}
 		if len(o.Findings) > 0 {
 			fmt.Printf("VIOLATION property=C06 replay=%s\n", p)
@@ -255,10 +276,10 @@ func main() {
 		mutations += o.Mutations
 		if o.Mutations > 0 || len(o.Findings) > 0 {
 			distinct[k.key()] = true
-			perClass[k.Cloner+"|"+path(k.Kind)+"|"+k.Dir+"|"+k.SendRep+">"+k.RecvRep]++
+			perClass[k.Cloner+"|"+pathOf(k)+"|"+k.Dir+"|"+k.SendRep+">"+k.RecvRep]++
 		}
-		sk := k.Cloner + "|" + path(k.Kind) + "|" + k.Dir
-		if !sampled[sk] && len(samples) < 16 && k.Shape == "msg-full" && plain(k) {
+		sk := k.Cloner + "|" + pathOf(k) + "|" + k.Dir
+		if !sampled[sk] && len(samples) < 24 && k.Shape == "msg-full" && plain(k) {
 			sampled[sk] = true
 			samples = append(samples, map[string]interface{}{"case": k, "observed": o.Observed})
 		}
@@ -289,7 +310,7 @@ func main() {
 	os.Exit(rep.Finish("exploration", map[string]interface{}{
 		"evaluations":         evals,
 		"distinct_nontrivial": len(distinct),
-		"rule": "every (cloner configuration incl. the variant of its user-supplied function, RPC kind incl. the unary call cancelled before the handler decodes, direction, pool message, sender representation, receiver representation, previous content of the destination) of the grammar is one RPC on a real " +
+		"rule": "every (cloner configuration incl. the variant of its user-supplied function, handler behaviour (new response / echo of the request object / one kept response object for two calls), RPC kind incl. the unary call cancelled before the handler decodes, direction, pool message, sender representation, receiver representation, previous content of the destination) of the grammar is one RPC on a real " +
 			"inprocgrpc.Channel. A case is non-trivial when the message went through the channel's clone/copy path and the pair (sender's object, receiver's object) was put through the disjointness test " +
 			"with at least one in-place mutation applied, or a clause failed; distinct by all case parameters.",
 		"samples":                            samples,
@@ -297,6 +318,7 @@ func main() {
 		"pool_messages":                      len(pool),
 		"message_types":                      len(typeOrder),
 		"cloner_configurations":              clonerNames,
+		"handler_behaviours":                 "answers with a new message (all kinds, both directions); echo: answers with the very object it decoded / received the request into (4 kinds; caller's request, handler's object and caller's response pairwise disjoint); kept: answers two successive unary calls with one object changed in place in between",
 		"user_function_variants":             "CopyFunc and CodecCloner each with a user function / codec that allocates the destination's content afresh and with one that overwrites the destination keeping its storage (X/reuse)",
 		"reuse_function_calls_by_library":    atomic.LoadInt64(&reuseCalls),
 		"reuse_function_storage_kept_events": atomic.LoadInt64(&reuseRetained),
